@@ -33,7 +33,7 @@ fn show_player(p: &three::Player) -> String {
 
 fn show_team(t: &three::Team) -> String { format!("({};{})", show_str(&t.name), t.score) }
 
-fn show_response(r: &three::Response) -> String {
+pub fn show_response(r: &three::Response) -> String {
     format!(
         "G3{{{}}} P{} T{} U{}",
         [
@@ -58,7 +58,7 @@ fn show_jc2m_player(p: &jc2m::Player) -> String {
     format!("({};{};{})", show_str(&p.name), show_str(&p.steam_id), p.ping)
 }
 
-fn show_jc2m(r: &jc2m::Response) -> String {
+pub fn show_jc2m(r: &jc2m::Response) -> String {
     format!(
         "JC{{{}}} P{}",
         [
